@@ -1349,8 +1349,17 @@ func (vc *VC) havocLoop(st *State, f *Frame, li *loopInfo) {
 		case "obj", "arr":
 			p := plan(m.heap, m.sort, m.kind == "arr")
 			if m.ref != nil {
-				if pv, ok := f.regs[m.ref].(*Ptr); ok && len(pv.Path) == 0 {
+				if pv, ok := f.regs[m.ref].(*Ptr); ok && len(pv.Path) == 0 && !pv.Nil {
 					p.refs = append(p.refs, pv.Base)
+					var ty types.Type
+					if pt, ok := m.ref.Type().Underlying().(*types.Pointer); ok {
+						ty = pt.Elem()
+					}
+					p.refTys = append(p.refTys, ty)
+					continue
+				}
+				if tv, ok := f.regs[m.ref].(*Term); ok && tv.Sort == sortInt {
+					p.refs = append(p.refs, tv)
 					var ty types.Type
 					if pt, ok := m.ref.Type().Underlying().(*types.Pointer); ok {
 						ty = pt.Elem()
@@ -1362,9 +1371,33 @@ func (vc *VC) havocLoop(st *State, f *Frame, li *loopInfo) {
 			p.full = true
 		case "obj-new", "arr-new":
 			plan(m.heap, m.sort, m.kind == "arr-new").newOnly = true
-		case "map", "map-new":
+		case "map", "map-new", "map-local":
 			_ = T
 			mh := vc.mapHeapsOf(st, m.mt)
+			if m.kind == "map-local" {
+				if mapSeen[mh.pn] || mapSeen["local:"+mh.pn] {
+					continue
+				}
+				full := false
+				for _, o := range mods {
+					if o.kind == "map" && o.mt != nil && vc.mapHeapsOf(st, o.mt).pn == mh.pn {
+						full = true
+					}
+				}
+				if full {
+					continue // handled (havocked without a frame) by the "map" entry
+				}
+				mapSeen["local:"+mh.pn] = true
+				mapSeen["new:"+mh.pn] = true
+				for _, hn := range []string{mh.pn, mh.vn, mh.nn} {
+					old := st.heaps[hn]
+					nh := vc.fresh(hn, old.Sort)
+					vc.frameOld(st, nh, old, vc.entry.alloc)
+					st.heaps[hn] = nh
+				}
+				vc.measureHavoc(st, m.mt)
+				continue
+			}
 			if m.kind == "map" {
 				if mapSeen[mh.pn] {
 					continue
@@ -1603,6 +1636,62 @@ func (vc *VC) havocLoop(st *State, f *Frame, li *loopInfo) {
 
 // frameOld: objects that existed before the loop keep their contents (only objects allocated
 // inside the loop are written).
+// localMap: the map value is one this function made itself (directly, or through a local variable that only ever
+// holds maps it made).
+func localMap(v ssa.Value, depth int) bool {
+	if depth > 4 {
+		return false
+	}
+	switch x := v.(type) {
+	case *ssa.MakeMap:
+		return true
+	case *ssa.Phi:
+		for _, e := range x.Edges {
+			if !localMap(e, depth+1) {
+				return false
+			}
+		}
+		return len(x.Edges) > 0
+	case *ssa.UnOp:
+		a, ok := x.X.(*ssa.Alloc)
+		if !ok || x.Op != token.MUL {
+			return false
+		}
+		n := 0
+		for _, ref := range *a.Referrers() {
+			switch r := ref.(type) {
+			case *ssa.Store:
+				if r.Addr != a || !localMap(r.Val, depth+1) {
+					return false
+				}
+				n++
+			case *ssa.UnOp, *ssa.DebugRef:
+			case *ssa.MakeClosure:
+				// captured by a closure: the closure may store into it; only accept if it never does
+				if fn, ok := r.Fn.(*ssa.Function); ok {
+					for i, b := range r.Bindings {
+						if b != a {
+							continue
+						}
+						fv := fn.FreeVars[i]
+						for _, fr := range *fv.Referrers() {
+							if st, isStore := fr.(*ssa.Store); isStore && st.Addr == fv {
+								return false
+							}
+						}
+					}
+				} else {
+					return false
+				}
+			default:
+				return false
+			}
+		}
+		return n > 0
+	}
+	return false
+}
+
 func (vc *VC) frameOld(st *State, nh, old, allocAtEntry *Term) {
 	q := fmt.Sprintf("fr%d", vc.nfresh)
 	vc.nfresh++
@@ -1672,6 +1761,13 @@ func (vc *VC) addrTarget(addr ssa.Value, li *loopInfo) modTarget {
 		}
 	} else if fv, isFree := root.(*ssa.FreeVar); isFree && li != nil && addr == root {
 		ref = fv // the cell of a captured variable: one known object
+	} else if li != nil && addr != root {
+		// a field of the object some pointer computed before the loop (or a parameter) refers to: one known object
+		if ins, ok := root.(ssa.Instruction); ok && ins.Block() != nil && !li.body[ins.Block()] {
+			ref = root
+		} else if _, isParam := root.(*ssa.Parameter); isParam {
+			ref = root
+		}
 	}
 	if arr, isArr := pt.Elem().Underlying().(*types.Array); isArr {
 		es := T.SortOf(arr.Elem())
@@ -1706,7 +1802,12 @@ func (vc *VC) loopMods(fn *ssa.Function, li *loopInfo, visiting map[*ssa.Functio
 					out = append(out, modTarget{heap: heapName("H", s), sort: s, kind: "obj-new"})
 				}
 			case *ssa.MapUpdate:
-				out = append(out, modTarget{kind: "map", mt: x.Map.Type().Underlying().(*types.Map)})
+				if localMap(x.Map, 0) {
+					// a map made by this very function: maps that existed when it was entered are not written
+					out = append(out, modTarget{kind: "map-local", mt: x.Map.Type().Underlying().(*types.Map)})
+				} else {
+					out = append(out, modTarget{kind: "map", mt: x.Map.Type().Underlying().(*types.Map)})
+				}
 			case *ssa.MakeMap:
 				out = append(out, modTarget{kind: "map-new", mt: x.Type().Underlying().(*types.Map)})
 			case *ssa.MakeInterface:
